@@ -556,6 +556,32 @@ func typedPayload(typ string, t *sim.Tape, rnd *sim.Rand) []byte {
 				u32(val())
 			}
 		}
+	case "meta":
+		if t.Bool() {
+			vf(0, 0) // ISO form: FullBox
+		}
+		if t.Chance(600) { // handler box (else: an empty meta box)
+			hd := []byte{0, 0, 0, 33, 'h', 'd', 'l', 'r', 0, 0, 0, 0, 0, 0, 0, 0, 'm', 'd', 'i', 'r', 0, 0, 0, 0, 0, 0, 0, 0, 0, 0, 0, 0, 0}
+			p = append(p, hd...)
+		}
+	case "colr":
+		ct := []string{"nclx", "nclc", "prof", "rICC", "zzzz"}[t.Draw(5)]
+		p = append(p, ct...)
+		switch ct {
+		case "nclx":
+			u16(t.Draw(10))
+			u16(t.Draw(10))
+			u16(t.Draw(10))
+			u8(t.Draw(2) << 7)
+		case "nclc":
+			u16(t.Draw(10))
+			u16(t.Draw(10))
+			u16(t.Draw(10))
+		default:
+			for i := t.Draw(12); i > 0; i-- {
+				u8(t.Draw(256))
+			}
+		}
 	case "senc":
 		fl := subset(0x2)
 		vf(0, fl)
@@ -933,6 +959,20 @@ func c03LeafBox(r *sim.Run) {
 		// reader-path decoders of their children, which file-level decoding never does below moov/moof
 		raw = c03RealBoxes[t.Draw(len(c03RealBoxes))]
 		r.Probe("leaf-real-box")
+	}
+	if t.Chance(200) {
+		// two boxes side by side inside a plain container: a child decoder that looks or reads past its own box shows
+		// when a sibling follows it
+		second := synthBox(t, rnd)
+		if len(c03RealBoxes) > 0 && t.Bool() {
+			second = c03RealBoxes[t.Draw(len(c03RealBoxes))]
+		}
+		inner := append(append([]byte(nil), raw...), second...)
+		cont := make([]byte, 8, 8+len(inner))
+		binary.BigEndian.PutUint32(cont, uint32(8+len(inner)))
+		copy(cont[4:], []string{"udta", "udta", "mvex", "dinf", "edts"}[t.Draw(5)])
+		raw = append(cont, inner...)
+		r.Probe("leaf-two-siblings")
 	}
 	typ := string(raw[4:8])
 	r.Event("leaf", int(sim.HashString(typ)&0xffff), len(raw))
